@@ -49,13 +49,13 @@ TIE = {
     "C11": ["is_jsonb_agrees"],
     "C12": ["read_u32_agrees", "decode_jentry_agrees", "decode_agrees", "cmp_agrees"],
     "C13": _RD + ["make_container_jentry_agrees", "container_word_agrees"],
-    "C14": ["jentry_compare_level_agrees", "as_f64_agrees", "decode_agrees", "read_u32_agrees"],
+    "C14": ["jentry_compare_level_agrees", "as_f64_agrees", "decode_agrees", "read_u32_agrees"] + _NUMO,
     "C15": _IDX,
     "C16": ["decode_hex_val_agrees"],
     "C17": ["encoded_agrees", "string_word_agrees", "number_word_agrees", "container_word_agrees", "compact_encode_agrees"],
     "C18": ["compact_encode_agrees", "decode_agrees"] + _NUMV + _NUMO,
     "C19": _NUMV + ["decode_agrees", "read_u32_agrees", "decode_jentry_agrees"],
-    "C20": _IDX + ["read_u32_overflow", "iterator_read_u32_overflow"],
+    "C20": _IDX + ["read_u32_overflow", "iterator_read_u32_overflow", "cmp_int_float_agrees"],
 }
 
 # phase 2 (tools/rs2lean2.py, Proofs/TranslatedAgreeB*.lean): walkers, iterators, writers, escaper
